@@ -244,9 +244,16 @@ func (me *multiEndpoint) switchFromTo(f, t *endpoint) {
 	timeAfterFunc(me.switchingDelay, func() {
 		me.Lock()
 		defer me.Unlock()
-		if e, ok := me.endpoints[me.future]; ok && e.status == available {
-			me.current = e.id
+		e, ok := me.endpoints[me.future]
+		if !ok || e.status != available {
+			return
 		}
+		// The endpoints may have been re-prioritized since this switch was scheduled: never
+		// move from an endpoint that is still usable to a lower priority one.
+		if c, exists := me.endpoints[me.current]; exists && c.status != unavailable && c.priority < e.priority {
+			return
+		}
+		me.current = e.id
 	})
 }
 
